@@ -93,8 +93,6 @@ RenameEdgesSeq(H, ids, next) ==
 SharedNodes(G, H) == NodeIds(G) \cap NodeIds(H)
 SharedEdges(G, H) == EdgeIds(G) \cap EdgeIds(H)
 IsEnumOf(s, S) == Len(s) = Cardinality(S) /\ {s[i] : i \in 1..Len(s)} = S
-RECURSIVE SortedSeqOf(_)
-SortedSeqOf(S) == IF S = {} THEN <<>> ELSE <<Min(S)>> \o SortedSeqOf(S \ {Min(S)})
 
 AddUnionOrd(G, H, ordN, ordE) ==
     LET nextN   == Max(NodeIds(G) \cup NodeIds(H)) + 1
